@@ -214,5 +214,8 @@ class RemoveImportsTransformer(CSTTransformer):
 
         if not names_to_keep:
             return RemoveFromParent()
+        elif len(names_to_keep) == len(updated_node.names):
+            # nothing to remove: leave the statement (and the comments inside it) as written
+            return updated_node
         else:
             return updated_node.with_changes(names=names_to_keep)
